@@ -15,6 +15,8 @@
    * an [Rc] allocation is identified by the index of the request during which it was allocated
      ([h_id], [o_id]); these identities are NOT observable through the safe API and are not part
      of [view]; the correspondence harness observes them as addresses;
+   * [RequestHead::clear] resets only headers and flags in older trees; the model follows the
+     repaired code (commit 319fa1c, F30);
    * [Rc::strong_count] of a live request object is the field [l_rc];
    * the path quoter ([Url::new] / [Url::update] -> [Quoter::requote_str_lossy]) is external code:
      a Section variable [requote] (no hypothesis about it is needed). *)
@@ -47,9 +49,16 @@ Record head := mkHead {
 Definition head_default (id : N) : head :=
   mkHead [71; 69; 84] [47] 11 [] None 0 id.
 
-(* [RequestHead::clear] : resets flags and headers -- and nothing else *)
+(* [RequestHead::clear] (since 319fa1c): method, uri, version, peer_addr back to their defaults,
+   flags emptied, headers cleared -- a recycled head is [RequestHead::default()] again *)
 Definition head_clear (h : head) : head :=
-  mkHead (h_method h) (h_uri h) (h_version h) [] (h_peer h) 0 (h_id h).
+  mkHead [71; 69; 84]                     (* self.method = Method::default() *)
+         [47]                             (* self.uri = Uri::default() *)
+         11                               (* self.version = Version::HTTP_11 *)
+         []                               (* self.headers.clear() *)
+         None                             (* self.peer_addr = None *)
+         0                                (* self.flags = Flags::empty() *)
+         (h_id h).
 
 (* who fills the head after [Message::new()] *)
 Inductive producer :=
@@ -58,9 +67,6 @@ Inductive producer :=
                 replaced, peer_addr written; the caller may insert flags (set_connection_type) *)
 | PHttpTest  (* actix_http::test::TestRequest::finish: uri/method/version/headers; NOT peer_addr *)
 | PRaw.      (* Request::new() / Request::from(Message::new()) and nothing else *)
-
-Definition full_producer (p : producer) : bool :=
-  match p with PH1 | PTest => true | PHttpTest | PRaw => false end.
 
 (* one incoming request as the transport / test builder presents it *)
 Record reqd := mkReq {
